@@ -6,7 +6,7 @@ from __future__ import annotations
 
 import asyncio
 import json
-from datetime import datetime, timezone
+from datetime import datetime, timedelta, timezone
 from fractions import Fraction
 
 import async_solipsism
@@ -28,7 +28,7 @@ def _mk_actor_cls():
     class PM(PowerManagingActor):
         def _add_system_bounds_tracker(self, component_ids):  # harness stub: no battery pool
             self._system_bounds[component_ids] = SystemBounds(
-                timestamp=datetime(2020, 1, 1, tzinfo=timezone.utc), inclusion_bounds=None, exclusion_bounds=None)
+                timestamp=datetime.now(tz=timezone.utc), inclusion_bounds=None, exclusion_bounds=None)
             rx = self._verif_bounds.new_receiver(limit=1000)
             self._bound_tracker_tasks[component_ids] = asyncio.create_task(
                 run_forever(lambda: self._bounds_tracker(component_ids, rx)))
@@ -42,8 +42,9 @@ async def _drive(case):
     from frequenz.sdk._internal._channels import ChannelRegistry
     from frequenz.sdk.microgrid import _power_distributing as pd
     from frequenz.sdk.microgrid._power_managing._base_classes import Proposal, ReportRequest, _Report
-    from frequenz.sdk.timeseries._base_types import Bounds
+    from frequenz.sdk.timeseries._base_types import Bounds, SystemBounds
 
+    base_ts = datetime.now(tz=timezone.utc)
     W = Power.from_watts
     loop = asyncio.get_running_loop()
     proposals, subs, reqs, results, boundsch = (Broadcast(name=n) for n in "psrxb")
@@ -111,7 +112,12 @@ async def _drive(case):
                                       set_operating_point=e["op"]))
             log.append({"e": "now", "i": i, "now": _units(loop.time())})
         elif e["t"] == "bounds":
-            await bsend.send(M.mk_sys(e["sys"]))
+            # the data timestamp of a bounds message is unrelated to the order of receipt:
+            # later messages may carry earlier, equal or later timestamps
+            sb = M.mk_sys(e["sys"])
+            sb = SystemBounds(timestamp=base_ts + timedelta(seconds=e.get("ts", 0)),
+                              inclusion_bounds=sb.inclusion_bounds, exclusion_bounds=sb.exclusion_bounds)
+            await bsend.send(sb)
         elif e["t"] == "result":
             req = last_req or pd.Request(power=W(0), component_ids=IDS)
             if e["k"] == 0:
@@ -214,7 +220,8 @@ def gen_case(rng, maxlen=14):
             evs.append({"t": "prop", "op": rng.random() < 0.45, "src": p["src"], "prio": p["prio"], "pref": p["pref"],
                         "lo": p["lo"], "hi": p["hi"]})
         elif r < 0.75:
-            evs.append({"t": "bounds", "sys": M.gen_sys(rng, allow_none=rng.random() < 0.3)})
+            evs.append({"t": "bounds", "sys": M.gen_sys(rng, allow_none=rng.random() < 0.3),
+                        "ts": rng.choice([-100, -5, -1, 0, 0, 1, 5, 100])})
         elif r < 0.88:
             evs.append({"t": "result", "k": rng.choice([0, 1, 1, 2])})
         else:
